@@ -131,3 +131,90 @@ func (it *Interp) crcDigestMethod(d *crcDigest, name string) Value {
 	}
 	return nil
 }
+
+// crypto/hmac + sha256 as an uninterpreted, injective function H(key, msg) -> 256 bits (4 x 64-bit words).
+type hmacObj struct {
+	key  []*Term
+	data []*Term
+}
+
+type hmacApp struct {
+	key, data []*Term
+	out       [4]*Term
+}
+
+var hmacT types.Type = types.NewNamed(types.NewTypeName(0, nil, "symgo.hmac", nil), types.NewStruct(nil, nil), nil)
+
+func init() {
+	intercepts["crypto/hmac.New"] = func(it *Interp, fn *ssa.Function, a []Value) Value {
+		return &IfaceV{T: hmacT, V: &hmacObj{key: it.bytesOfSlice(a[1].(*SliceV))}}
+	}
+	intercepts["crypto/hmac.Equal"] = func(it *Interp, fn *ssa.Function, a []Value) Value {
+		return it.strEq(&StrV{it.bytesOfSlice(a[0].(*SliceV))}, &StrV{it.bytesOfSlice(a[1].(*SliceV))})
+	}
+}
+
+func (it *Interp) hmacApply(key, data []*Term) []*Term {
+	apps, _ := it.ghost["hmacApps"].(*[]hmacApp)
+	if apps == nil {
+		apps = &[]hmacApp{}
+		it.ghost["hmacApps"] = apps
+	}
+	c := it.ctx
+	args := append(append([]*Term{}, key...), data...)
+	var app hmacApp
+	app.key, app.data = key, data
+	for w := 0; w < 4; w++ {
+		app.out[w] = c.UF(fmt.Sprintf("hmacsha256_w%d_k%d_m%d", w, len(key), len(data)), SBV(64), args...)
+	}
+	// injectivity, instantiated against every earlier application on this path
+	for _, o := range *apps {
+		same := c.True
+		if len(o.key) != len(key) || len(o.data) != len(data) {
+			same = c.False
+		} else {
+			var eqs []*Term
+			for i := range key {
+				eqs = append(eqs, c.Eq(key[i], o.key[i]))
+			}
+			for i := range data {
+				eqs = append(eqs, c.Eq(data[i], o.data[i]))
+			}
+			same = c.And(eqs...)
+		}
+		outEq := c.And(c.Eq(app.out[0], o.out[0]), c.Eq(app.out[1], o.out[1]), c.Eq(app.out[2], o.out[2]), c.Eq(app.out[3], o.out[3]))
+		it.assume(c.Or(same, c.Not(outEq)))
+	}
+	*apps = append(*apps, app)
+	out := make([]*Term, 32)
+	for i := 0; i < 32; i++ {
+		w := app.out[i/8]
+		k := 7 - i%8
+		out[i] = c.Extract(w, k*8+7, k*8)
+	}
+	return out
+}
+
+func (it *Interp) hmacMethod(h *hmacObj, name string) Value {
+	switch name {
+	case "Write":
+		return &EngineFunc{"Write", func(it *Interp, a []Value) Value {
+			s := a[0].(*SliceV)
+			h.data = append(h.data, it.bytesOfSlice(s)...)
+			return TupleV{it.ctx.BV(uint64(s.ln), 64), &IfaceV{}}
+		}}
+	case "Sum":
+		return &EngineFunc{"Sum", func(it *Interp, a []Value) Value {
+			var prefix []*Term
+			if s, ok := a[0].(*SliceV); ok && s != nil && s.ln > 0 {
+				prefix = it.bytesOfSlice(s)
+			}
+			return it.newByteSlice(append(prefix, it.hmacApply(h.key, h.data)...), "hmac.Sum")
+		}}
+	case "Reset":
+		return &EngineFunc{"Reset", func(it *Interp, a []Value) Value { h.data = nil; return nil }}
+	case "Size":
+		return &EngineFunc{"Size", func(it *Interp, a []Value) Value { return it.ctx.BV(32, 64) }}
+	}
+	return nil
+}
